@@ -166,7 +166,8 @@ func partialParts(ps []*ptree) bool {
 // ---- writer side ----
 type recReader struct {
 	data      []byte
-	mode      string // whole | together | onebyte | short
+	mode      string // whole | together | mtogether (one short first read, then data+EOF together) | onebyte | short
+	first     int
 	pos       int
 	eofBefore int // bytes delivered before the Read call that returned EOF (-1: not yet)
 	rng       func(int) int
@@ -187,6 +188,10 @@ func (r *recReader) Read(p []byte) (int, error) {
 		if m := 1 + r.rng(40000); m < n {
 			n = m
 		}
+	case "mtogether":
+		if r.pos == 0 && r.first < n {
+			n = r.first
+		}
 	}
 	if n > len(p) {
 		n = len(p)
@@ -194,7 +199,7 @@ func (r *recReader) Read(p []byte) (int, error) {
 	before := r.pos
 	copy(p, r.data[r.pos:r.pos+n])
 	r.pos += n
-	if r.mode == "together" && r.pos >= len(r.data) {
+	if (r.mode == "together" || r.mode == "mtogether") && r.pos >= len(r.data) {
 		if r.eofBefore < 0 {
 			r.eofBefore = before
 		}
@@ -341,10 +346,16 @@ func runC15(c *ctx) {
 	}
 	var wcases []wcase
 	for _, n := range sizes {
-		wcases = append(wcases, wcase{n, []string{"random", "zeros", "mixed"}[c.rng.Intn(3)], []string{"whole", "together", "short", "onebyte"}[c.rng.Intn(4)]})
+		wcases = append(wcases, wcase{n, []string{"random", "zeros", "mixed"}[c.rng.Intn(3)], []string{"whole", "together", "short", "onebyte", "mtogether"}[c.rng.Intn(5)]})
 	}
 	for _, n := range bigs[:c.n(2, 3)] {
 		wcases = append(wcases, wcase{n, "zeros", "short"}, wcase{n, "mixed", "together"})
+	}
+	// data that never splits, long enough for the hard cap to fall inside the last buffered read, i.e. after the source
+	// has already reported EOF (first chunk is cut at 256 KiB, the next one must be cut at 1 MiB)
+	wcases = append(wcases, wcase{262144 + 1048576 + 50, "zeros", "mtogether"}, wcase{262144 + 1048576 + 1 + c.rng.Intn(30000), "zeros", "mtogether"}, wcase{262144 + 1048576 + 50, "zeros", "together"})
+	if !c.quick() {
+		wcases = append(wcases, wcase{262144 + 2*1048576 + 7, "zeros", "mtogether"}, wcase{1048576 + 262144 + 32768, "zeros", "mtogether"})
 	}
 	for i := 0; i < c.n(6, 60); i++ {
 		wcases = append(wcases, wcase{c.rng.Intn(700000), []string{"random", "zeros", "mixed"}[c.rng.Intn(3)], []string{"whole", "together", "short", "onebyte"}[c.rng.Intn(4)]})
@@ -355,7 +366,7 @@ func runC15(c *ctx) {
 			wc.mode = "short"
 		}
 		sto := &memory.Storage{}
-		rr := &recReader{data: data, mode: wc.mode, eofBefore: -1, rng: c.rng.Intn}
+		rr := &recReader{data: data, mode: wc.mode, eofBefore: -1, rng: c.rng.Intn, first: 1 + c.rng.Intn(20000)}
 		fref, err := schema.WriteFileFromReader(ctxb, sto, "f.bin", rr)
 		idx := len(c.casesBuf)
 		desc := fmt.Sprintf("%d bytes of %s data, reader %s", wc.n, wc.kind, wc.mode)
